@@ -176,6 +176,13 @@ def cases(ctx):
     for n in range(1, 4 if ctx.tier == "quick" else 5):
         for t in gen_trees(n):
             yield f"exh{n}", dict(root=t, ctcs=[])
+    # constraints naming a feature more than once, every operator nested in every operator; case twins
+    for m in gen.nest_models(gen.LOGICAL, chunk=3):
+        yield "nest-ctc", m
+    for m in gen.case_twin_models():
+        yield "case-twins", m
+    yield "twins", dict(root=spec.F("App", [spec.R(1, 1, [spec.F("log")]), spec.R(0, 1, [spec.F("Log")]),
+                                            spec.R(1, 1, [spec.F("Ab"), spec.F("aB")])]), ctcs=[])
     for i in range(200 if ctx.tier == "quick" else 3000):
         n = g.rng.choice([1, 2, 3, 5, 9, 14]) if ctx.tier == "quick" else g.rng.choice([1, 2, 5, 12, 40, 150])
         m = g.model(n, kinds=kinds, ctc_depth=2, abstract=True,
